@@ -7,12 +7,23 @@ import common
 from common import xr, xvec, from_xr, from_xvec, num_close
 
 ID = "C05"
-TARGETS = ["Proofs.C05", "Proofs.GenEq.Det"]
+TARGETS = ["Proofs.C05", "Proofs.C05Rank", "Proofs.GenEq.Det"]
 GEN_PREFIXES = ["det."]
 TRANSLATED = ["mae", "bias", "diff", "ratio", "ef", "stderror", "obsstddev", "fcststddev", "rmse", "rmsf", "cmae",
               "nsec", "nnsec", "alphaindex", "dmb", "mbias", "derror"]
-HAND = ["corr", "kge"]
-IMPL_ONLY = ["rankcorr", "kendallcorr", "leps"]     # SciPy / loop code: oracle only, no Lean model
+HAND = ["corr", "kge", "rankcorr", "kendallcorr", "leps"]   # hand-written models (NumPy/SciPy library calls, loop)
+SPEC_HAND = ["corr", "kge", "rankcorr", "kendallcorr"]     # ... whose Lean Spec (Spec/Rank.lean) is also an oracle
+IMPL_ONLY = []                                             # metrics without a Lean model: none left
+RANK_THEOREMS = [
+    "C05_bound_pearson_sq", "C05_corr_def", "C05_bound_pearson", "C05_corr_def_exact", "C05_corr_undefined",
+    "C05_bound_corr", "C05_perfect_corr", "C05_pearson_symm", "C05_rankcorr_def", "C05_avgRanks_strictMono",
+    "C05_spearman_strictMono", "C05_spearman_symm", "C05_bound_spearman_sq", "C05_bound_rankcorr",
+    "C05_perfect_rankcorr", "C05_rankcorr_undefined", "C05_kendall_def", "C05_kendall_undefined",
+    "C05_bound_kendallcorr", "C05_bound_kendall", "C05_kendall_def_exact", "C05_perfect_kendallcorr",
+    "C05_tauB_strictMono", "C05_tauB_symm", "C05_kge_def", "C05_kge_undefined", "C05_perfect_kge",
+    "C05_perfect_kge_mean0", "C05_bound_kge", "C05_leps_never_perfect_with", "C05_leps_never_perfect",
+    "C05_leps_def_partial", "C05_leps_spec_perfect", "C05_n0_eq", "C05_symm", "C05_rank_invariant",
+    "rankdata_fins", "kendall_partition", "qfcst_fins", "TrEx_lawful", "TrEx_pos"]
 AGG_METRICS = ["mae", "bias", "diff", "ratio", "rmse", "rmsf", "cmae"]
 AGGS = ["mean", "sum", "min", "max", "meanabs", "absmean", "range", "variance", "std", "median"]
 THEOREMS = {
@@ -24,24 +35,38 @@ THEOREMS = {
         "C05_bound_stderror", "C05_bound_nsec", "C05_bound_alphaindex", "C05_declared_perfect",
         "C05_selectWithin", "C05_fromfield_obs_by_fcst", "C05_fromfield_fcst_by_obs", "C05_fromfield_empty_bin",
         "C05_obsfcst_by_obs"]],
+    "Proofs.C05Rank": ["VerifModel.C05." + t for t in RANK_THEOREMS],
     "Proofs.GenEq.Det": ["VerifModel.GenEq.Det.%s_eq" % n for n in TRANSLATED],
 }
 TRUSTED_BASE = [
     "Lean 4.33 kernel; axioms propext, Classical.choice, Quot.sound only",
     "Spec/Det.lean: textbook definitions of 17 deterministic scores (Wilks; Jolliffe & Stephenson; Nash-Sutcliffe; "
-    "Koh & Ng 2009), NaN where a denominator is zero",
+    "Koh & Ng 2009), NaN where a denominator is zero; Spec/Rank.lean: Pearson's r, average ranks, Spearman, Kendall "
+    "tau-b, KGE (Gupta et al. 2009), LEPS (Ward & Folland 1991) as published",
     "harness/translate.py for the 17 _compute_from_obs_fcst bodies incl. the NumPy vector primitives it maps to "
     "Base/Vec.lean (np.mean/sum/std/var/sort/abs/len, broadcasting) — validated each run by stream metric.det",
-    "corr and kge are hand-modelled from np.corrcoef's definition and tied by correspondence only; rankcorr, "
-    "kendallcorr (SciPy) and leps have no Lean model: only the perfect-score/bound oracle speaks for them",
-    "sqrt/exp/log/cube root as the parameter Tr (theorems for every lawful Tr); IEEE rounding (tolerance 1e-9 on "
-    "the 1/8 grid where sums are exact, 1e-6 on decimal inputs)",
+    "hand-written models tied by correspondence (metric.det/small/rank/decimal/perfect/sequence): corr, kge "
+    "(np.corrcoef = covariance sum / root / root, clipped to [-1,1]), rankcorr (scipy.stats.spearmanr = np.corrcoef "
+    "of rankdata; rankdata 'average' = (#<= + #< + 1)/2), kendallcorr (scipy.stats.kendalltau: tot, xtie, ytie, ntie, "
+    "dis, con-dis = tot-xtie-ytie+ntie-2dis, one root of the product instead of SciPy's two, clipped), leps (the "
+    "loop, np.argsort as a stable argsort, np.sort). NumPy/SciPy themselves are trusted primitives",
+    "sqrt/exp/log/cube root as the parameter Tr (theorems for every lawful Tr); facts about the root that no "
+    "rational-valued function satisfies everywhere (sqrt(q)^2 = q) are hypotheses at the one argument used "
+    "(Base/TrSqrt.lean: SqrtExactAt, SqrtBelowAt, SqrtPos), shown satisfiable; IEEE rounding (tolerance 1e-9 on "
+    "the 1/8 grid where sums are exact, 1e-6 on decimal inputs) — e.g. corr(obs, obs) = 0.9999999999999998",
 ]
 ASSUMPTIONS = ["obs and fcst have equal length", "aggregator-parametrised perfect-score theorems assume the "
-               "aggregator maps an all-zero vector to 0 (true of all but count)"]
+               "aggregator maps an all-zero vector to 0 (true of all but count)",
+               "leps: model and code are compared on observations without ties only (np.argsort's default kind is "
+               "not stable, the order of tied indices - hence verif's LEPS - depends on NumPy's sort implementation); "
+               "the theorem that 0 is unreachable holds for every order argsort may return",
+               "perfect-score theorems of corr/rankcorr/kendallcorr/kge: the computed root of the sum of squares "
+               "is exact or rounded down (then the clip to [-1,1] gives exactly 1); otherwise 1 - O(eps)"]
 RULE = ("metric.det: obs/fcst vectors of length 0..12 on a 1/8 grid (ties, constants, negatives, zeros, NaNs, "
-        "obs=fcst) x 19 modelled metrics x aggregators; metric.small: exhaustive over all pairs of vectors in "
-        "{-1,0,1,2}^n, n<=2 (quick) / n<=3 (thorough); metric.decimal: realistic decimals (tolerance); "
+        "obs=fcst) x 22 modelled metrics x aggregators; metric.small: exhaustive over all pairs of vectors in "
+        "{-1,0,1,2}^n, n<=2 (quick) / n<=3 (thorough); metric.rank: rankcorr, kendallcorr, leps, corr, kge on "
+        "rank-shaped data (1-3 distinct values, constant series, n = 1, 2, 3, permutations, monotone / reversed "
+        "forecasts, forecasts equal to observed values); metric.decimal: realistic decimals (tolerance); "
         "metric.perfect: fcst=obs for all 22 metrics; metric.single: the compute_single layer under -x obs / -x fcst; "
         "metric.sequence: 3..8 scores one after the other on one Data object, each compared with the model and with "
         "the same score computed on its own; non-trivial = finite reply")
@@ -50,8 +75,14 @@ EXHAUSTIVE_NOTE = "all vector pairs over {-1,0,1,2}^n for n<=2 (quick), n<=3 (th
 LEVEL_TEXT = ("Lean theorems: 17 formula bodies, machine-translated from /repo on every run, equal the textbook "
               "definitions for all non-empty lists of finite pairs, every aggregator and every Tr; pairs with a "
               "missing member are dropped and no pair gives NaN (for every metric); fcst=obs attains the declared "
-              "perfect score wherever defined; MAE/RMSE/stderror/alpha >= 0 and NSE <= 1. corr/kge tied by "
-              "correspondence; SciPy-based metrics covered by the implementation-only oracle.")
+              "perfect score wherever defined; MAE/RMSE/stderror/alpha >= 0 and NSE <= 1. corr, rankcorr, kendallcorr, "
+              "kge (hand-written models of the NumPy/SciPy calls, tied by correspondence): equal to Pearson's r / "
+              "Spearman (Pearson of average ranks) / Kendall tau-b / Gupta's KGE limited to [-1,1], NaN exactly for "
+              "fewer than two pairs or a constant series; value always in [-1,1] (kge <= 1) for every Tr and all data; "
+              "Cauchy-Schwarz and |C-D| <= untied pairs; 1 for fcst=obs on every non-constant series; unchanged under "
+              "strictly increasing maps (ranks, tau-b) and under swapping obs and fcst. leps: the code's forecast term "
+              "is the empirical CDF, its observation term is argsort/N: the perfect score 0 is unreachable for every "
+              "non-empty input (known finding leps-perfect, theorem C05_leps_never_perfect).")
 TECHNIQUE = "Lean 4 proof; formulas regenerated from source by a translator and re-proved each run; differential correspondence"
 GRID = [-1.0, -0.5, 0.0, 0.125, 0.5, 1.0, 1.5, 2.0, 3.25]
 
@@ -82,7 +113,7 @@ def gen_ops(tier, rng):
             for i in range(L):
                 if rng.random() < 0.08:
                     v[i] = float("nan")
-        for m in rng.sample(TRANSLATED + HAND, 5) + [rng.choice(["rankcorr", "kendallcorr"])]:
+        for m in rng.sample(TRANSLATED + HAND, 5) + [rng.choice(["rankcorr", "kendallcorr", "leps"])]:
             agg = rng.choice(AGGS) if m in AGG_METRICS else "mean"
             if m == "rmsf":
                 obs2 = [abs(x) + 0.5 if x == x else x for x in obs]
@@ -123,6 +154,35 @@ def gen_ops(tier, rng):
             if m == "rmsf" and min(obs) <= 0:
                 continue
             yield "metric.perfect", "det %s mean %s %s" % (m, xvec(obs), xvec(obs))
+    # the order-based scores (rankcorr, kendallcorr, leps) and corr/kge on rank-shaped data: few distinct values (many
+    # ties), constant series, n = 1, 2, 3, negatives, monotone and anti-monotone forecasts, forecasts equal to
+    # observed values (the CDF lookup of leps at a tie), observations without ties (leps: see ASSUMPTIONS)
+    for _ in range(220 if tier == "quick" else 4000):
+        L = rng.choice([1, 2, 2, 3, 3, 4, 5, 7, 10])
+        kind = rng.choice(["ties", "ties", "perm", "perm", "const_o", "const_f", "mono", "anti", "same"])
+        few = rng.sample(GRID, rng.choice([1, 2, 3]))
+        if kind in ("perm", "mono", "anti"):
+            obs = rng.sample([-2.0, -1.0, -0.5, 0.0, 0.125, 0.5, 1.0, 1.5, 2.0, 3.25, 4.0, 6.5], L)
+        else:
+            obs = [rng.choice(few) for _ in range(L)]
+        if kind == "mono":
+            fcst = [2.0 * x + 1.0 for x in obs]
+        elif kind == "anti":
+            fcst = [-x for x in obs]
+        elif kind == "same":
+            fcst = list(obs)
+        elif kind == "perm":
+            fcst = [rng.choice(obs + [min(obs) - 1.0, max(obs) + 1.0, obs[0] + 0.0625]) for _ in range(L)]
+        else:
+            fcst = [rng.choice(few + [rng.choice(GRID)]) for _ in range(L)]
+        if kind == "const_o":
+            obs = [obs[0]] * L
+        if kind == "const_f":
+            fcst = [fcst[0]] * L
+        if rng.random() < 0.1:
+            (obs if rng.random() < 0.5 else fcst)[rng.randrange(L)] = float("nan")
+        for m in ["rankcorr", "kendallcorr", "leps"] + rng.sample(["corr", "kge"], 1):
+            yield "metric.rank", "det %s mean %s %s" % (m, xvec(obs), xvec(fcst))
     for m in TRANSLATED + HAND + IMPL_ONLY:
         yield "metric.meta", "detperfect %s" % m
     # the compute_single layer: which cases a metric sees under -x obs / -x fcst / ordinary axes
@@ -239,6 +299,9 @@ def spec_op(op):
         if a[1] == "rmsf" and any(x == 0 or y / x <= 0 for x, y in zip(o, f)):
             return None
         return "specdet %s %s %s %s" % (a[1], a[2], xvec(o), xvec(f))
+    if a[0] == "det" and a[1] in SPEC_HAND:
+        o, f = _valid(a)
+        return "specdet %s %s %s %s" % (a[1], a[2], xvec(o), xvec(f))
     return None
 
 
@@ -257,6 +320,8 @@ def cmp(op, impl_out, model_out):
     a = op.split(" ")
     if a[0] == "det" and a[1] in IMPL_ONLY:
         return True
+    if a[0] == "det" and a[1] == "leps" and _tied_obs(a):
+        return True      # np.argsort's order of tied observations is unspecified (not stable): outside the model
     if a[0] == "single":
         return impl_out == model_out or _close(impl_out, model_out, 1e-9)
     if a[0] == "seq":
@@ -267,6 +332,11 @@ def cmp(op, impl_out, model_out):
     if _zero_variance_rounding(a, impl_out):
         return True      # outside the exact-arithmetic model (rounding); judged by the oracle as a known finding
     return _close(impl_out, model_out, _tol(op))
+
+
+def _tied_obs(a):
+    o, _ = _valid(a)
+    return len(set(o)) < len(o)
 
 
 def _zero_variance_rounding(a, impl_out):
